@@ -64,21 +64,16 @@ def check(ctx):
                   "a point on an edge can be classified by the crossing count instead of by the boundary rule when some path "
                   "through the edge loop skips or precedes the on-edge test")
     V = FuncView(ctx, i)
-    want = [("y <= py", "T", "v > py", "right", "+"), ("y <= py", "F", "v <= py", "left", "-")]
-    t0 = V.tests(lambda t: src(t) == "y <= py")
-    ok = bool(t0)
-    if ok:
-        up = V.tests(lambda t: src(t) == "v > py")
-        dn = V.tests(lambda t: src(t) == "v <= py")
-        rt = [t for t in V.cfg.nodes if t.kind == "test" and isinstance(t.ast.test, ast.Call) and call_name(t.ast.test) == "right"]
-        lf = [t for t in V.cfg.nodes if t.kind == "test" and isinstance(t.ast.test, ast.Call) and call_name(t.ast.test) == "left"]
-        inc = [n for n in V.cfg.nodes if isinstance(n.ast, ast.AugAssign) and isinstance(n.ast.op, ast.Add) and dotted(n.ast.target) == "w"]
-        dec = [n for n in V.cfg.nodes if isinstance(n.ast, ast.AugAssign) and isinstance(n.ast.op, ast.Sub) and dotted(n.ast.target) == "w"]
-        ok = all([up, dn, rt, lf, inc, dec]) and V.dominated_by_edge(up, t0[0], "T") and V.dominated_by_edge(dn, t0[0], "F") and \
-            V.dominated_by_edge(inc, up[0], "T") and V.dominated_by_edge(inc, rt[0], "T") and \
-            V.dominated_by_edge(dec, dn[0], "T") and V.dominated_by_edge(dec, lf[0], "T")
-        args = "sub(p, vs[i]), sub(vs[j], vs[i])"
-        ok = ok and all(", ".join(src(a) for a in t.ast.test.args) == args for t in rt + lf)
+    inc = [n for n in V.cfg.nodes if isinstance(n.ast, ast.AugAssign) and isinstance(n.ast.op, ast.Add) and dotted(n.ast.target) == "w"]
+    dec = [n for n in V.cfg.nodes if isinstance(n.ast, ast.AugAssign) and isinstance(n.ast.op, ast.Sub) and dotted(n.ast.target) == "w"]
+    args = "sub(p, vs[i]), sub(vs[j], vs[i])"
+    ok = bool(inc) and bool(dec)
+    for n in inc:      # upward crossing: y <= py < v and p right of the directed edge
+        fs = V.facts(n)
+        ok = ok and {"y <= py", "v > py", "right(%s)" % args} <= fs
+    for n in dec:      # downward crossing: v <= py < y and p left of the directed edge
+        fs = V.facts(n)
+        ok = ok and ("y > py" in fs or "not y <= py" in fs) and {"v <= py", "left(%s)" % args} <= fs
     ctx.check(ok, "T9-crossing", i, "upward crossing (y <= py < v, p left of edge) +1; downward (v <= py < y, p right) -1",
               "the half-open crossing rule counts each vertex-level crossing exactly once")
     defs = {"insideOnly": "inside(p, vs, side=False)", "outsideOnly": "outside(p, vs, side=False)"}
